@@ -73,6 +73,18 @@ Triangle ==
     /\ (r <= 0 \/ r * r <= 4 * L1sq(cfg) * L2sq(cfg))
     /\ ((r >= 0 /\ r * r = 4 * L1sq(cfg) * L2sq(cfg)) <=> ICls(cfg) = ClassZero)
 
+(* broadcasting: in every layout a pixel sees the shared value of a shared role and its own value *)
+(* of the others (here: the current configuration as the shared record, its swap as the pixel     *)
+(* record), and a batch whose pixel record equals the shared one is that configuration            *)
+BroadcastSound ==
+    \A lay \in Layouts :
+        LET o == SwapCfg(cfg)  e == Element(lay, cfg, o) IN
+        /\ e.src = (IF "src" \in SharedRoles(lay) THEN cfg.src ELSE o.src)
+        /\ e.smp = cfg.smp                                  \* the swap keeps the sample
+        /\ e.det = (IF "det" \in SharedRoles(lay) THEN cfg.det ELSE o.det)
+        /\ Element(lay, cfg, cfg) = cfg
+        /\ (lay = "pixelwise" => Exact(e) = Exact(o)) /\ (lay = "scalars" => Exact(e) = Exact(cfg))
+
 -----------------------------------------------------------------------------
 (* Action properties *)
 (* the scattering angle is unchanged by every symmetry operation (incl. the swap:       *)
